@@ -3,7 +3,7 @@ import itertools
 
 META = {
     "bounds": {"quick": {"from predictions": "m <= 3 samples, labels/predictions symbolic over 3 classes (explicit class orders: all 6 permutations; classes=None: np.unique forks), weights absent / symbolic Int / symbolic Real > 0",
-                         "from matrix": "N in {2,3} (4 for one-vs-all), leading shapes () and (2,), entries symbolic >= 0; nested lists, dict of dicts, DataFrame stub, every class reordering"},
+                         "from matrix": "N in {2,3} (4 for one-vs-all), leading shapes (), (2,), (2,3), (2,2) [thorough also (3,1,2), (1,3)], entries symbolic >= 0; nested lists, dict of dicts, DataFrame stub, every class reordering"},
                "thorough": {"from predictions": "m <= 4", "from matrix": "N in {2,3,4}"}},
     "assumptions": ["R-exact (counting and adding)", "pandas is replaced by symx.pd: DataFrame.loc[list, list] reorders rows/columns by label (pandas-documented contract)",
                     "class labels are small integers or fixed strings; weights positive"],
@@ -32,6 +32,12 @@ def items(tier):
         if not (N == 4 and tier == "quick"):
             out.append({"kind": "one_vs_all", "N": N, "X": "(2,)", "dom": "int", "lo": 1})
         out.append({"kind": "one_vs_all", "N": N, "X": "()", "dom": "real", "lo": 0 if N < 3 else 1})
+    # two leading axes of different length (and, thorough, three): the class axis must stay the last one in every view
+    out.append({"kind": "one_vs_all", "N": 2, "X": "(2, 3)", "dom": "int", "lo": 1, "views": True})
+    out.append({"kind": "one_vs_all", "N": 3, "X": "(2, 2)", "dom": "int", "lo": 1, "views": True})
+    if tier != "quick":
+        out.append({"kind": "one_vs_all", "N": 2, "X": "(3, 1, 2)", "dom": "int", "lo": 1, "views": True})
+        out.append({"kind": "one_vs_all", "N": 3, "X": "(1, 3)", "dom": "real", "lo": 1})
     for perm in itertools.permutations(range(3)):
         if list(perm) != [0, 1, 2]:
             out.append({"kind": "equivariance", "N": 3, "perm": list(perm)})
@@ -144,19 +150,25 @@ def run_matrix_inputs(h, N, perm):
             h.check("classes that are not a reordering of the keys raise ValueError", True)
 
 
-def run_one_vs_all(h, N, X, dom, lo=0):
-    lead = () if X == "()" else (2,)
-    mats = [_entries(h, N, dom, prefix=f"e{k}_", lo=lo) for k in range(1 if X == "()" else 2)]
+def run_one_vs_all(h, N, X, dom, lo=0, views=False):
+    lead = tuple(eval(X))
+    nm_ = 1
+    for d_ in lead:
+        nm_ *= d_
+    mats = [_entries(h, N, dom, prefix=f"e{k}_", lo=lo) for k in range(nm_)]
     arr = h.np.asarray(mats[0] if X == "()" else mats)
+    if len(lead) > 1:
+        arr = arr.reshape(lead + (N, N))
     cm = h.sa.ConfusionMatrix(matrix=arr)
     ova = cm.one_vs_all()
     h.check("one_vs_all shape = X + (N,2,2), binary", h.shape(ova.matrix) == lead + (N, 2, 2) and ova.binary is True)
     O = h.cells(ova.matrix)
-    vals = {nm: h.cells(getattr(cm, nm)()) for nm in PER_CLASS}
-    for nm in PER_CLASS:
+    names_ = ["tp", "fn", "tpr", "ppv"] if views else PER_CLASS
+    vals = {nm: h.cells(getattr(cm, nm)()) for nm in names_}
+    for nm in names_:
         h.check(f"{nm}: shape X + (N,)", h.shape(getattr(cm, nm)()) == lead + (N,))
     acc = h.cells(cm.accuracy())
-    for k, E in enumerate(mats):
+    for k, E in enumerate([] if views else mats):     # views=True: only the shape / as_dict obligations (algebra is covered by the other items)
         tot = h.sum([x for row in E for x in row])
         for j in range(N):
             o = O[(k * N + j) * 4:(k * N + j) * 4 + 4]
@@ -178,17 +190,27 @@ def run_one_vs_all(h, N, X, dom, lo=0):
         else:
             h.check("accuracy = trace / population", h.And(h.Not(h.eq(tot, 0)), h.eq(a * tot, tr)))
     # as_dict agrees with the array form
-    for nm in ("tpr", "ppv", "fp", "class_accuracy"):
+    for nm in (("tpr", "fp") if views else ("tpr", "ppv", "fp", "class_accuracy")):
         d = getattr(cm, nm)(as_dict=True)
         arrv = getattr(cm, nm)()
         ok = [sorted(int(k) for k in d.keys()) == list(range(N))]
         for j in range(N):
             key = [k for k in d.keys() if int(k) == j][0]
             a, b = h.cells(d[key]), h.cells(h.np.take(arrv, j, axis=-1))
-            ok.append(len(a) == len(b) and h.And([(h.is_nan(x) and h.is_nan(y)) if (h.is_nan(x) or h.is_nan(y)) else h.eq(x, y, 0) for x, y in zip(a, b)]))
+            ok.append(h.shape(d[key]) == lead and len(a) == len(b) and h.And([(h.is_nan(x) and h.is_nan(y)) if (h.is_nan(x) or h.is_nan(y)) else h.eq(x, y, 0) for x, y in zip(a, b)]))
         h.check(f"{nm}: as_dict[c_j] = array[..., j]", h.And(ok))
+    if views:
+        # the interval views on CONCRETE pairwise-distinct entries (12 symbolic radicands cost ~50 s and add nothing: the
+        # obligation is about which axis is split, and distinct entries tell every position apart)
+        cnt = iter(range(3, 10 ** 6, 7))
+        cm = h.sa.ConfusionMatrix(matrix=h.np.asarray([[[next(cnt) for _ in range(N)] for _ in range(N)] for _ in range(nm_)]).reshape(lead + (N, N)))
     ci = cm.tpr_ci(as_dict=True)
     h.check("tpr_ci as_dict: one (…,2) interval per class", sorted(int(k) for k in ci.keys()) == list(range(N)) and all(h.shape(v) == lead + (2,) for v in ci.values()))
+    if views:       # values compared on the concrete matrix only (a second symbolic call would double the sqrt decisions for nothing)
+        full = cm.tpr_ci()
+        h.check("tpr_ci: shape X + (N, 2)", h.shape(full) == lead + (N, 2))
+        h.check("tpr_ci as_dict[c_j] = array[..., j, :]", all(
+            h.shape(ci[key]) == lead + (2,) and h.And([h.eq(x, y, 0) for x, y in zip(h.cells(ci[key]), h.cells(h.np.take(full, int(key), axis=-2)))]) for key in ci.keys()))
 
 
 def run_equivariance(h, N, perm):
